@@ -261,7 +261,7 @@ def tap_walk(ck, name, cfg, steps, coq_exprs, expect, hostile=0.0, idle=False, z
                 cur = after
             ops, exp = ops[:300], exp[:600]
             coq_exprs.append("(fix go (s : kc) (l : list kop) : list Z := match l with [] => [] | o :: t => let s' := k_step %d s o in [k_cur s'; k_next s'] ++ go s' t end) "
-                             "{| k_cur := %d; k_next := %d; k_done := false |} [%s]" % (last, s[0], s[1], "; ".join(ops)))
+                             "{| k_cur := %d; k_next := %d; k_done := false; k_prog := 0 |} [%s]" % (last, s[0], s[1], "; ".join(ops)))
             expect.append(exp)
 
 
